@@ -4,5 +4,5 @@ pkg=$1; tier=${2:-quick}; repo=${KVC_REPO:-/repo}
 w=/verif/.work/mon-$$; mkdir -p $w
 sed -e "/^\/\/KVC-GEN/r /verif/monitor/gen_mon.go.txt" /verif/monitor/${MON:-$pkg}_mon_test.go.txt > $w/kvc_mon_test.go
 echo "{\"Replace\":{\"$repo/v2/$pkg/kvc_mon_test.go\":\"$w/kvc_mon_test.go\"}}" > $w/ov.json
-cd $repo/v2 && KVC_MON_TRACE=$KVC_MON_TRACE KVC_MON_SEED=$KVC_MON_SEED KVC_MON_PROP=$KVC_MON_PROP KVC_MON_TIER=$tier KVC_MON_CASE=$3 GOFLAGS=-mod=mod GOPROXY=off go test -overlay $w/ov.json -vet=off -count=1 -timeout 30m -v -run TestKvcMon ./$pkg/ 2>&1 | grep -v "^=== RUN" | tail -40
+cd $repo/v2 && KVC_MON_TRACE=$KVC_MON_TRACE KVC_MON_GOLDEN=/verif/golden KVC_MON_SEED=$KVC_MON_SEED KVC_MON_PROP=$KVC_MON_PROP KVC_MON_TIER=$tier KVC_MON_CASE=$3 GOFLAGS=-mod=mod GOPROXY=off go test -overlay $w/ov.json -vet=off -count=1 -timeout 30m -v -run TestKvcMon ./$pkg/ 2>&1 | grep -v "^=== RUN" | tail -40
 rm -rf $w
